@@ -209,6 +209,26 @@ Theorem C04_meta : forall w ti n o r w',
 Proof. exact meta_effect. Qed.
 Print Assumptions C04_meta.
 
+(* ---- set_data / rename at the level of step: the forest is re-labelled on a group that is empty
+        (nothing to do), the node itself, or its whole clone group; kind and meta are never touched ---- *)
+Theorem C04_set_data : forall w ti n d e wc r w',
+  step w (OSetData ti n d e wc) = (Ok r, w') ->
+  exists t t' s group g,
+    get_tree w ti = Some t /\ get_tree w' ti = Some t' /\ get_node n (forest_of t) = Some s /\
+    forest_of t' = relabel group g (forest_of t) /\
+    (group = [] \/ group = [n] \/ group = idx_get (rdid s) (idx t)) /\
+    (forall i, i_kind (g i) = i_kind i /\ i_meta (g i) = i_meta i) /\
+    reg t' = reg t /\ next w' = next w.
+Proof. exact set_data_effect. Qed.
+Print Assumptions C04_set_data.
+
+(* ... and re-labelling a group changes the payload of exactly the rows of the group:
+   same nodes, same parents, same order *)
+Theorem C04_relabel_frame : forall g group f, NoDup (ids f) -> NoDup group -> incl group (ids f) ->
+  rows 0 (relabel group g f) = map (upd_rows group g) (rows 0 f) /\ ids (relabel group g f) = ids f.
+Proof. exact relabel_rows. Qed.
+Print Assumptions C04_relabel_frame.
+
 (* ---- frame across trees, for EVERY operation and EVERY outcome (success, refusal, failing
         callback): only the tree the operation works on can change; existing trees are never
         dropped (ext = no shorter, and equal at every other index) ---- *)
@@ -221,7 +241,7 @@ Print Assumptions C04_frame_other_trees.
 (* Not proved as Coq statements (kept as definitions; the correspondence and harness/mut_spec.py
    decide them on every run):
    - sort(deep=True): every child list of the branch is the stable sorted permutation of what it was;
-   - set_data on a clone group: the rows of exactly the group members change data / data_id. *)
+   (set_data on clone groups IS proved: C04_set_data + C04_relabel_frame.) *)
 Definition C04_sort_deep_statement : Prop :=
   forall k rv t t' failed fuel, sort_deep fuel k rv t false = (t', failed) -> size t < fuel -> failed = false ->
     Permutation (ids_t t') (ids_t t) /\ rid t' = rid t /\ rinfo t' = rinfo t /\
